@@ -468,7 +468,16 @@ class Interp(ExprMixin, StmtMixin):
             if name == "get":
                 k = args[0]
                 if isinstance(k, (SV, SInt)):
-                    raise Unsupported("symbolic key into concrete dict.get")
+                    # a small concrete table asked with a symbolic key: one path per key, then the default
+                    kt = to_val(k)
+                    for k0, v0 in recv.items():
+                        try:
+                            hit = kt == to_val(k0)
+                        except Unsupported:
+                            raise Unsupported("symbolic key into a concrete dict with unmodelled keys") from None
+                        if path.branch(hit):
+                            return v0
+                    return args[1] if len(args) > 1 else None
                 return recv.get(k, args[1] if len(args) > 1 else None)
             if name in ("pop", "setdefault", "update", "clear"):
                 return getattr(recv, name)(*args)
